@@ -88,7 +88,6 @@ class Explorer:
         self.constraints = []
         self.model = None
         self.pos = 0
-        self.prefix_pos = 0
         self._fresh = 0
         self._sqrt_cache = {}
         self.inputs = {}
@@ -209,9 +208,9 @@ class Explorer:
         if not t_ok and not f_ok:
             raise PathAbort()
         both = t_ok and f_ok
-        if both and self.prefix_pos < len(self.prefix):
-            taken = self.prefix[self.prefix_pos]
-            self.prefix_pos += 1
+        if both and self.forced < len(self.prefix):
+            taken = self.prefix[self.forced]
+            self.forced += 1
             self.stack.append([taken, False])
         else:
             taken = t_ok
@@ -433,6 +432,7 @@ class Explorer:
         V._CTX[0] = self
         try:
             self.stack = []
+            self.forced = 0
             while True:
                 self._begin_path()
                 try:
